@@ -91,7 +91,10 @@ class C14(Check):
                "gzip": rng.random() < 0.5,
                "with_info": rng.random() < 0.9}
         if kind.startswith("sharded"):
-            sh = shardeng.gen_scenario(rng, "quick")
+            while True:
+                sh = shardeng.gen_scenario(rng, "quick")
+                if not sh["scenario"].get("huge"):
+                    break       # this check visits every grid position
             sh["scenario"]["mode"] = "bytes"
             scn["shard"] = sh["scenario"]
             scn["shard"]["bits"][0] = min(scn["shard"]["bits"][0], 8)
